@@ -301,7 +301,7 @@ func replaySchedule(w *wk.Worker, p *Params, s *schedule) {
 	}
 	sort.Strings(sorted)
 	for _, n := range sorted {
-		if n == "H" {
+		if n == "H" || n == "J" {
 			makers[n] = freshHeap()
 		} else {
 			e, ok := freshStatic()
@@ -488,7 +488,7 @@ func planClass(s *schedule) string {
 
 func tclass(c call) string {
 	k := "fast-type"
-	if c.T == "H" {
+	if c.T == "H" || c.T == "J" {
 		k = "heap-type"
 	}
 	if c.Q {
@@ -690,6 +690,22 @@ func stressRound(w *wk.Worker, p *Params, rc roundCfg) {
 	cat = append(cat, func() op {
 		return op{Name: "Marshal(cold heap type)", expect: result{out: string(hwant)}, run: func() result { return mk(json.Marshal(heapMk())) }}
 	})
+	for k := 0; k < 3; k++ { // several DIFFERENT heap types first used at the same time (copy-on-write map updates from one snapshot)
+		mk2 := freshHeap()
+		w2, _ := stdjson.Marshal(mk2())
+		cat = append(cat, func() op {
+			return op{Name: "Marshal(another cold heap type)", expect: result{out: string(w2)}, run: func() result { return mk(json.Marshal(mk2())) }}
+		})
+		cat = append(cat, func() op {
+			return op{Name: "Unmarshal(another cold heap type)", expect: result{out: string(w2)}, run: func() result {
+				dst := reflect.New(reflect.TypeOf(mk2()).Elem())
+				if err := json.Unmarshal(w2, dst.Interface()); err != nil {
+					return result{err: err.Error()}
+				}
+				return mk(stdjson.Marshal(dst.Interface()))
+			}}
+		})
+	}
 	cat = append(cat, func() op {
 		return op{Name: "Unmarshal(cold heap type)", expect: result{out: string(hwant)}, run: func() result {
 			dst := reflect.New(reflect.TypeOf(hv).Elem())
